@@ -34,9 +34,8 @@ fn main() {
     let args: Vec<String> = std::env::args().collect();
     let permits: isize = args[1].parse().unwrap();
     let progs: Vec<Vec<Op>> = args[2..].iter().map(|p| parse(p)).collect();
-    let result = std::panic::catch_unwind(|| {
-        shuttle::check_dfs(
-            move || {
+    let progs2 = progs.clone();
+    let workload = move |progs: Vec<Vec<Op>>| {
                 let sem = Arc::new(Semaphore::new(permits));
                 let acq_done = Arc::new(AtomicIsize::new(0));
                 let rel_started = Arc::new(AtomicIsize::new(0));
@@ -77,10 +76,21 @@ fn main() {
                 for h in hs {
                     h.join().unwrap();
                 }
-            },
-            None,
-        );
+    };
+    // random schedules first (fast), then exhaustive DFS with an iteration cap
+    let w1 = workload.clone();
+    let p1 = progs.clone();
+    let result = std::panic::catch_unwind(move || {
+        shuttle::check_random(move || w1(p1.clone()), 20000);
     });
+    let result = if result.is_ok() {
+        let w2 = workload.clone();
+        std::panic::catch_unwind(move || {
+            shuttle::check_dfs(move || w2(progs2.clone()), Some(300000));
+        })
+    } else {
+        result
+    };
     match result {
         Ok(_) => std::process::exit(0),
         Err(_) => std::process::exit(1),
